@@ -77,7 +77,7 @@ package mice
 // Encode: for every record size >= 1. Write failures surface; no slice or
 // allocation size goes out of range (the record arithmetic does not overflow).
 //@ func (Encoding).Encode
-//@   props C14 C19 C10
+//@   props C14 C19 C10 C18
 //@   returns (digest, err)
 //@   requires w != nil && !failed(w) && recordSize >= 1
 //@   requires enc == Draft02Encoding || enc == Draft03Encoding
